@@ -19,6 +19,7 @@ import (
 
 	"slices"
 
+	"github.com/sourcenetwork/defradb/acp/dac"
 	"github.com/sourcenetwork/defradb/acp/identity"
 	"github.com/sourcenetwork/defradb/client"
 	"github.com/sourcenetwork/defradb/client/request"
@@ -264,11 +265,13 @@ func (c *collection) iterateAllDocs(
 ) error {
 	txn := datastore.CtxMustGetTxn(ctx)
 	df := c.newFetcher()
+	// Every document is visited, whoever asks: an index that left out the documents the caller
+	// may not read would hide them from those who may.
 	err := df.Init(
 		ctx,
-		identity.FromContext(ctx),
+		immutable.None[identity.Identity](),
 		txn,
-		c.db.documentACP,
+		immutable.None[dac.DocumentACP](),
 		immutable.None[client.IndexDescription](),
 		c,
 		fields,
